@@ -5,7 +5,7 @@
    The harness supplies [long_tab]: the names in SERDE_SUPPORTED_LONG_IDS as observed on the code
    (the > 31 byte core libfunc/type ids the implementation agrees to serialize) with their
    starknet_keccak.  [check_hyp] evaluates the hypotheses of C18_de_ser on that table. *)
-From C18 Require Export Compress Serde.
+From C18 Require Export Compress Serde DebugInfo.
 From Coq Require Export Uint63.
 Local Open Scope N_scope.
 
@@ -141,3 +141,10 @@ Definition check_de (t : long_tab_t) (cs : list de_case) : list (N * bool) :=
     let m := sierra_from kc ids l in
     if opt_eqb res_eqb m e then []
     else [(k, match m with Some _ => true | None => false end)]) (indexed 0 cs).
+
+(* ---- leg 5: DebugInfo::extract(p).populate(q) ---- *)
+Definition populate_case := (program * program * program)%type.   (* p, q, impl result *)
+(* answer: (index, names_consistent p) *)
+Definition check_populate (cs : list populate_case) : list (N * bool) :=
+  flat_map (fun '(k, (p, q, e)) =>
+    if program_eqb (populate (extract p) q) e then [] else [(k, names_consistent p)]) (indexed 0 cs).
